@@ -231,8 +231,8 @@ func (v *VDR) Create(did *docdid.Doc,
 		return nil, err
 	}
 
-	for k := range pks {
-		createOpt = append(createOpt, create.WithPublicKey(pks[k].publicKey))
+	for _, k := range pks {
+		createOpt = append(createOpt, create.WithPublicKey(k.publicKey))
 	}
 
 	createOpt = append(createOpt,
@@ -296,8 +296,12 @@ type pk struct {
 	publicKey *doc.PublicKey
 }
 
-func getSidetreePublicKeys(didDoc *docdid.Doc) (map[string]*pk, error) { //nolint:funlen,gocyclo
+// getSidetreePublicKeys returns the document's public keys in the order they are first referenced, so that the
+// same document always yields the same create request (and therefore the same DID).
+func getSidetreePublicKeys(didDoc *docdid.Doc) ([]*pk, error) { //nolint:funlen,gocyclo
 	pksMap := make(map[string]*pk)
+
+	var pks []*pk
 
 	ver := make([]docdid.Verification, 0)
 
@@ -341,7 +345,7 @@ func getSidetreePublicKeys(didDoc *docdid.Doc) (map[string]*pk, error) { //nolin
 
 		switch {
 		case v.VerificationMethod.JSONWebKey() != nil:
-			pksMap[id] = &pk{
+			pks = append(pks, &pk{
 				publicKey: &doc.PublicKey{
 					ID:       id,
 					Type:     v.VerificationMethod.Type,
@@ -349,9 +353,10 @@ func getSidetreePublicKeys(didDoc *docdid.Doc) (map[string]*pk, error) { //nolin
 					JWK:      *v.VerificationMethod.JSONWebKey(),
 				},
 				value: v.VerificationMethod.Value,
-			}
+			})
+			pksMap[id] = pks[len(pks)-1]
 		case v.VerificationMethod.Value != nil:
-			pksMap[id] = &pk{
+			pks = append(pks, &pk{
 				publicKey: &doc.PublicKey{
 					ID:       id,
 					Type:     v.VerificationMethod.Type,
@@ -359,13 +364,14 @@ func getSidetreePublicKeys(didDoc *docdid.Doc) (map[string]*pk, error) { //nolin
 					B58Key:   base58.Encode(v.VerificationMethod.Value),
 				},
 				value: v.VerificationMethod.Value,
-			}
+			})
+			pksMap[id] = pks[len(pks)-1]
 		default:
 			return nil, fmt.Errorf("verificationMethod needs either JSONWebKey or Base58 key")
 		}
 	}
 
-	return pksMap, nil
+	return pks, nil
 }
 
 // Option configures the long-form vdr.
